@@ -39,6 +39,9 @@ type c11Shape struct {
 	// reserved for an earlier pod of the same name (another UID), as a failed attempt followed by a re-creation leaves it
 	dra      bool
 	draStale bool
+	// staleCMs: the GPU sharing ConfigMaps of an earlier pod of the same name (another UID, already deleted) still exist
+	// when the request is reconciled: the garbage collector has not yet reached them
+	staleCMs bool
 }
 
 func c11Shapes() []c11Shape {
@@ -69,8 +72,11 @@ func c11Shapes() []c11Shape {
 		mk("gpu-memory-new-group", PodSpec{CPUm: 500, MemMi: 256, GPUMemMi: 4000}, []string{"gnew"}, "Fraction", "0.25"),
 		mk("multi-fraction-2-new", PodSpec{CPUm: 500, MemMi: 256, Fraction: "0.5", NumDevices: 2}, []string{"gnewa", "gnewb"}, "Fraction", "0.50"),
 		mk("multi-fraction-1-old-1-new", PodSpec{CPUm: 500, MemMi: 256, Fraction: "0.5", NumDevices: 2}, []string{"gold", "gnew"}, "Fraction", "0.50", sharer),
+		staleCM(mk("fraction-recreated-pod-stale-configmaps", PodSpec{CPUm: 500, MemMi: 256, Fraction: "0.5"}, []string{"gnew"}, "Fraction", "0.50")),
 	}
 }
+
+func staleCM(sh c11Shape) c11Shape { sh.staleCMs = true; return sh }
 
 type c11Outcome struct {
 	Calls     []BinderCall `json:"calls"`
@@ -124,6 +130,14 @@ func runC11Case(t *testing.T, c C11Case) (out c11Outcome) {
 					c.Status.ReservedFor = []resourceapi.ResourceClaimConsumerReference{{Resource: "pods", Name: shape.pod, UID: "uid-of-the-earlier-incarnation"}}
 					api.updateClaim(c)
 				}
+			}
+			if shape.staleCMs {
+				base := api.Pod(NS, shape.pod).Annotations["runai/shared-gpu-configmap"]
+				old := []metav1.OwnerReference{{APIVersion: "v1", Kind: "Pod", Name: shape.pod, UID: "uid-of-the-earlier-incarnation"}}
+				must(api.Tracker.Add(&corev1.ConfigMap{TypeMeta: metav1.TypeMeta{APIVersion: "v1", Kind: "ConfigMap"}, ObjectMeta: metav1.ObjectMeta{Name: base + "-0", Namespace: NS, OwnerReferences: old},
+					Data: map[string]string{"GPU_PORTION": "0.25", "GPU_MEMORY_LIMIT": "1"}}))
+				must(api.Tracker.Add(&corev1.ConfigMap{TypeMeta: metav1.TypeMeta{APIVersion: "v1", Kind: "ConfigMap"}, ObjectMeta: metav1.ObjectMeta{Name: base + "-0-evar", Namespace: NS, OwnerReferences: old},
+					Data: map[string]string{"NVIDIA_VISIBLE_DEVICES": "7"}}))
 			}
 			must(api.Tracker.Add(br))
 			b := NewBinderActor(api, 40*time.Second, bopts...)
@@ -311,6 +325,7 @@ func c11CheckBound(api *SimAPI, shape *c11Shape, pod *corev1.Pod, br *bindv1alph
 		}
 		idx = append(idx, found)
 	}
+	api.GCOrphans() // the garbage collector catches up: what is owned only by pods that no longer exist goes away
 	base := pod.Annotations["runai/shared-gpu-configmap"]
 	var evar, caps *corev1.ConfigMap
 	for _, cm := range api.ConfigMaps() {
